@@ -28,9 +28,16 @@ package wallet
 
 // changing the password: the temporary unlock must not happen before the old password is verified,
 // and a failed change leaves the lock state as it was
-//@ func (*Wallet).ProcWalletSetPasswd [C38]
+//@ func (*Wallet).ProcWalletSetPasswd [C37,C38]
 //@   opt safety=assumed overflow=assumed
 //@   requires wallet.isWalletLocked == 0 || wallet.isWalletLocked == 1
+// (C37) re-encryption on a password change: the seed and every stored key are decrypted under the OLD password of
+// the request (the wallet's in-memory password is empty after a restart) and re-encrypted under the NEW one
+//@   assert@call CBCDecrypterPrivkey: bytes(arg0) == Passwd.OldPass && arg1 == ret0(FromHex)
+//@   assert@call CBCEncrypterPrivkey: bytes(arg0) == Passwd.NewPass && arg1 == ret(CBCDecrypterPrivkey)
+//@   assert@call getSeed: arg1 == Passwd.OldPass
+//@   assert@call SaveSeedInBatch: arg1 == ret0(getSeed) && arg2 == Passwd.NewPass
+//@   assert@call SetPasswordHash: arg1 == Passwd.NewPass
 //@   assert@call CompareAndSwapInt32#0: (len(wallet.Password) == 0 && wallet.EncryptFlag == 1 ==> called(VerifyPasswordHash) && ret(VerifyPasswordHash)) && (len(wallet.Password) != 0 ==> Passwd.OldPass == wallet.Password)
 
 // locking always succeeds in setting the flag
